@@ -118,6 +118,16 @@ class PyUnit:
             t = z3.Int(name)
             setattr(e, name, t)
             return PAny(t)
+        if kind == "str":
+            # text of unbounded length: characters <name>.chars[i], 0 <= i < <name>.len
+            from .pyfe import PSeq
+            arr = z3.Array(name + ".chars", z3.IntSort(), z3.IntSort())
+            ln = z3.Int(name + ".len")
+            st.path.append(ln >= 0)
+            ev = Env()
+            ev.chars, ev.len = arr, ln
+            setattr(e, name, ev)
+            return PSeq(arr, z3.IntVal(0), ln)
         raise OutOfSubset("parameter kind %s" % kind)
 
     def _run(self, res, timeout_s):
@@ -217,6 +227,8 @@ class PyUnit:
             return v
         if isinstance(v, PStr):
             return tuple(v.codes)
+        if type(v).__name__ == "PSeq":
+            return ("seq", v.off, v.ln)
         raise OutOfSubset("result kind %s" % v.kind)
 
     def _finish(self, res, obligations, e, timeout_s):
